@@ -150,6 +150,10 @@ pub fn make_payload(p: Payload, tag: u64) -> Box<dyn Error> {
         Payload::StatusDone => Box::new(IVPStatus::<IVPError>::Done),
         Payload::StatusRedo => Box::new(IVPStatus::<IVPError>::Redo),
         Payload::StatusFailure => Box::new(IVPStatus::<IVPError>::Failure(IVPError::UserError(Box::new(SimFault { tag })))),
+        Payload::DimError => Box::new(bacon_sci::DimensionError::StaticOnDynamic),
+        Payload::InnerMinDt => Box::new(IVPError::MinimumTimeDeltaExceeded),
+        Payload::InnerMaxIter => Box::new(IVPError::MaximumIterationsExceeded),
+        Payload::InnerSingular => Box::new(IVPError::SingularMatrix),
     }
 }
 
@@ -179,7 +183,9 @@ pub struct Found {
     pub unit: bool,
     /// number of `IVPError::UserError` elements in the chain (the item itself included)
     pub ivp_user_errors: usize,
-    /// boxed `IVPStatus` values reachable through the chain: 1 Done, 2 Redo, 3 Failure
+    /// boxed `IVPStatus` values reachable through the chain: 1 Done, 2 Redo, 3 Failure;
+    /// 4: a boxed `DimensionError`; 5, 6, 7: an `IVPError::MinimumTimeDeltaExceeded`,
+    /// `MaximumIterationsExceeded`, `SingularMatrix` *below* the item itself in the chain
     pub status: Vec<u8>,
 }
 
@@ -223,6 +229,17 @@ pub fn scan_error(e: &(dyn Error + 'static)) -> Found {
         if let Some(bacon_sci::ivp::IVPError::UserError(_)) = x.downcast_ref::<bacon_sci::ivp::IVPError>() {
             f.ivp_user_errors += 1;
         }
+        if x.downcast_ref::<bacon_sci::DimensionError>().is_some() {
+            f.status.push(4);
+        }
+        if depth > 0 {
+            match x.downcast_ref::<IVPError>() {
+                Some(IVPError::MinimumTimeDeltaExceeded) => f.status.push(5),
+                Some(IVPError::MaximumIterationsExceeded) => f.status.push(6),
+                Some(IVPError::SingularMatrix) => f.status.push(7),
+                _ => {}
+            }
+        }
         if let Some(st) = x.downcast_ref::<IVPStatus<IVPError>>() {
             f.status.push(match st {
                 IVPStatus::Done => 1,
@@ -259,6 +276,10 @@ impl Found {
             Payload::StatusDone => self.status.contains(&1),
             Payload::StatusRedo => self.status.contains(&2),
             Payload::StatusFailure => self.status.contains(&3) && self.typed.contains(&tag),
+            Payload::DimError => self.status.contains(&4),
+            Payload::InnerMinDt => self.status.contains(&5),
+            Payload::InnerMaxIter => self.status.contains(&6),
+            Payload::InnerSingular => self.status.contains(&7),
         }
     }
     pub fn all_tags(&self) -> Vec<u64> {
@@ -303,6 +324,10 @@ pub fn is_original(b: &(dyn Error + 'static), p: Payload, tag: u64) -> bool {
         }
         Payload::StatusDone => matches!(b.downcast_ref::<IVPStatus<IVPError>>(), Some(IVPStatus::Done)),
         Payload::StatusRedo => matches!(b.downcast_ref::<IVPStatus<IVPError>>(), Some(IVPStatus::Redo)),
+        Payload::DimError => matches!(b.downcast_ref::<bacon_sci::DimensionError>(), Some(bacon_sci::DimensionError::StaticOnDynamic)),
+        Payload::InnerMinDt => matches!(b.downcast_ref::<IVPError>(), Some(IVPError::MinimumTimeDeltaExceeded)),
+        Payload::InnerMaxIter => matches!(b.downcast_ref::<IVPError>(), Some(IVPError::MaximumIterationsExceeded)),
+        Payload::InnerSingular => matches!(b.downcast_ref::<IVPError>(), Some(IVPError::SingularMatrix)),
         Payload::StatusFailure => match b.downcast_ref::<IVPStatus<IVPError>>() {
             Some(IVPStatus::Failure(IVPError::UserError(inner))) => inner.downcast_ref::<SimFault>().map(|f| f.tag) == Some(tag),
             _ => false,
